@@ -3,7 +3,7 @@
    LR/Automaton_proofs.v about the models LR/Driver.v (ParserState.feed_token) and
    LR/Automaton.v (lalr_analysis.py). *)
 From Coq Require Import List Arith Bool ZArith.
-From LV Require Import Cfg.Grammar LR.Driver LR.Driver_proofs LR.Automaton LR.Automaton_proofs LR.Automaton_wf LR.Automaton_la.
+From LV Require Import Cfg.Grammar LR.Driver LR.Driver_proofs LR.Automaton LR.Automaton_proofs LR.Automaton_wf LR.Automaton_la LR.Automaton_complete LR.La_complete LR.Lalr_complete.
 Import ListNotations.
 
 (* "accepts only sentences", for EVERY table in which a reduce by r is only offered in states
@@ -140,23 +140,66 @@ Theorem C02_model_table_sound (G : grammar) (prio : list Z) (rootnt start tEND f
 Proof. exact (model_table_sound_user G prio rootnt start tEND fuel A rel LA R qe fuel' w t). Qed.
 Print Assumptions C02_model_table_sound.
 
-(* NOT PROVED - kept as the full statement of the completeness clause ("accepts all of them
-   when conflict-free").  It is validated, not proved: every generated grammar's look-ahead
-   sets and table rows are compared with an independent canonical-LR(1)-merge computation and
-   every driven input with an Earley-style recogniser (harness/props/C02.py).  The sound half
-   is C02_model_table_sound / C02_driver_sound above. *)
-Definition conflict_free (A : lr0) (LA : list (nat * nat * nat)) : Prop :=
-  forall q s, In s (la_terms LA q) -> trans A q (T s) = None /\ length (la_rules LA q s) <= 1.
+(* la_complete (tree form of  "S' =>rm* alpha A a z  implies  a in Follow(goto*(q0, alpha), A)"):
+   if rule i (started at the non-terminal transition y, with a in Follow y) has the child c at
+   state q = goto*(fst y, pre), then the token that follows the child's yield - the first token
+   of the later siblings' yields, or a if they are all empty - is in Follow (q, c) ... *)
+Theorem C02_la_complete_child (rules : list rule) (tEND fuel : nat) (A : lr0) (r0 : nat)
+        (y : ntrans) (i : nat) (pre : list symbol) (c : nat) (post : list symbol) (q a : nat)
+        (cs : list (dtree nat)) :
+  build_lr0 rules [r0] fuel = Some A ->
+  In y (nt_transitions rules A) -> In (i, 0) (closure_of A (fst y)) -> lhs (rule_at rules i) = snd y ->
+  rhs (rule_at rules i) = pre ++ NT c :: post -> goto_star A (fst y) pre = Some q ->
+  wf_forest nat (fun k => k) rules cs -> map (root nat (fun k => k)) cs = post ->
+  FollowOf rules tEND A r0 y a ->
+  FollowOf rules tEND A r0 (q, c) (hd a (flat_map (yield nat) cs)).
+Proof. exact (fun HB => la_complete_child rules tEND fuel A r0 HB y i pre c post q a cs). Qed.
+Print Assumptions C02_la_complete_child.
 
-Definition C02_complete_full_statement : Prop :=
-  forall (G : grammar) (prio : list Z) (rootnt start tEND fuel : nat)
-         (A : lr0) (rel : relations) (LA : list (nat * nat * nat)) (R : rows) (qe : nat) (w : list nat),
+(* ... and a itself is a look-ahead of the reduction by rule i in the state after its body *)
+Theorem C02_la_complete_reduce (rules : list rule) (tEND fuel : nat) (A : lr0) (r0 : nat)
+        (y : ntrans) (i qn a : nat) :
+  build_lr0 rules [r0] fuel = Some A ->
+  In y (nt_transitions rules A) -> In (i, 0) (closure_of A (fst y)) -> lhs (rule_at rules i) = snd y ->
+  goto_star A (fst y) (rhs (rule_at rules i)) = Some qn -> FollowOf rules tEND A r0 y a ->
+  In (qn, a, i) (la_triples (compute_relations rules [r0] tEND A)).
+Proof. exact (fun HB => la_complete_reduce rules tEND fuel A r0 HB y i qn a). Qed.
+Print Assumptions C02_la_complete_reduce.
+
+(* Completeness: when the model's table has no shift/reduce and no reduce/reduce conflict
+   (conflict_free: a look-ahead terminal of a state has no transition there and at most one
+   rule), the model driver accepts EVERY sentence of the user's grammar.  Together with
+   C02_model_table_sound: accepted language = language of the grammar. *)
+Theorem C02_complete (G : grammar) (prio : list Z) (rootnt start tEND fuel : nat)
+        (A : lr0) (rel : relations) (LA : list (nat * nat * nat)) (R : rows) (qe : nat) (w : list nat) :
   compute_lalr (G ++ [mkRule rootnt [NT start]]) prio [length G] tEND fuel = ATable A rel LA R ->
-  (forall r, In r G -> ~ In (NT rootnt) (rhs r) /\ ~ In (T tEND) (rhs r)) -> start <> rootnt ->
+  (forall r, In r G -> ~ In (NT rootnt) (rhs r)) -> start <> rootnt ->
   end_state (G ++ [mkRule rootnt [NT start]]) [length G] A 0 = Some qe ->
   conflict_free A LA ->
-  derives G nat (tmatch nat (fun k => k)) [NT start] w -> ~ In tEND w ->
-  exists fuel' t, parse nat (fun k => k) (ptable_of_rows R 0 qe) fuel' w tEND = Accepted t.
+  derives G nat (tmatch nat (fun k => k)) [NT start] w ->
+  exists f t, parse nat (fun k => k) (ptable_of_rows R 0 qe) f w tEND = Accepted t.
+Proof. exact (model_complete_user G prio rootnt start tEND fuel A rel LA R qe w). Qed.
+Print Assumptions C02_complete.
+
+(* the NULLABLE set of the model contains every symbol list deriving the empty string,
+   closures are closed under prediction, and goto is total on a finished automaton *)
+Theorem C02_automaton_complete (rules : list rule) (roots : list nat) (fuel : nat) (A : lr0) :
+  build_lr0 rules roots fuel = Some A -> NoDup roots ->
+  (forall ss, derives rules nat (tmatch nat (fun k => k)) ss [] -> forallb (nullable rules) ss = true) /\
+  (forall K it b i, In it (closure rules K) -> next_sym rules it = Some (NT b) -> i < length rules ->
+                    lhs (rule_at rules i) = b -> In (i, 0) (closure rules K)) /\
+  (forall q X, q < nstates A -> In X (next_syms rules (closure_of A q)) -> exists q', trans A q X = Some q').
+Proof.
+  exact (fun HB ND => conj (fun ss H => nullable_complete rules nat _ ss [] H eq_refl)
+                           (conj (closure_predicts rules) (trans_total rules roots fuel A HB ND))).
+Qed.
+Print Assumptions C02_automaton_complete.
+
+(* NOT PROVED: "the DeRemer-Pennello look-ahead sets are exactly the canonical-LR(1)-merge
+   look-aheads" (needs a Coq model of canonical LR(1)); validated per grammar by the Python
+   LR(1)-merge oracle.  What IS proved about LA: least solution of the equations
+   (C02_la_closure), enough look-aheads for every derivation tree (C02_la_complete_child and C02_la_complete_reduce), and
+   never too many for soundness (C02_model_table_sound needs nothing about LA). *)
 
 (* Non-vacuity: the grammar of finding F13 (LALR(1), shared core {b: B., e2: B.}):
      start: a E | c | Y e2 D    a: Y b    c: Y a D    b: B    e2: B
@@ -183,6 +226,7 @@ Example C02_example :
                      rows_action R (hd 0 (sstack c)) (T 1) = Some (Reduce (mkRule 3 [T 4])) /\
                      rows_action R (hd 0 (sstack c)) (T 3) = Some (Reduce (mkRule 4 [T 4])) /\
                      rows_action R (hd 0 (sstack c)) (T 0) = None) /\
+          conflict_free_b A LA = true /\
           length (kernels A) >= 10
       | None => False
       end
